@@ -121,11 +121,12 @@ def gen_elem(rng, depth, w, recs, parent, xml, max_depth=4, max_children=3):
     if kind == 'tscript':
         # script with a non-JS type is NOT special: its body is ordinary markup
         w.add(' ')
-        ns, ne = w.add('type')
+        # (HTML attribute names match in any letter case: `<script TYPE="text/x-template">` of older pages)
+        ns, ne = w.add('type' if xml or rng.random() < 0.75 else rng.choice(['TYPE', 'Type']))
         w.add(equals(rng))
         val = rng.choice(['"text/x-template"', "'text/html'", 'text/ng-template'.replace('/', '-')])
         vs, ve = w.add(val)
-        attrs = [{'name': 'type', 'ns': ns, 'ne': ne, 'val': val, 'vs': vs, 've': ve,
+        attrs = [{'name': w.text()[ns:ne], 'ns': ns, 'ne': ne, 'val': val, 'vs': vs, 've': ve,
                   'inner': (vs + 1, ve - 1) if val[0] in '"\'' else (vs, ve)}]
     elif kind == 'special' and name == 'script' and rng.random() < 0.5:
         w.add(' ')
